@@ -137,16 +137,20 @@ class Incomplete(Exception):
 
 # ------------------------------------------------------------------------------------------------ interpreter
 class State:
-    __slots__ = ("env", "facts", "ret", "done")
+    __slots__ = ("env", "facts", "ret", "done", "hit", "conds")
 
     def __init__(self, env=None, facts=None):
         self.env = dict(env or {})
         self.facts = dict(facts or {})
         self.ret = None
         self.done = False
+        self.hit = 0        # connectivity sinks passed on this path (entry function only)
+        self.conds = []     # (test text, truth) of the branches taken on this path
 
     def fork(self):
         s = State(self.env, self.facts)
+        s.hit = self.hit
+        s.conds = list(self.conds)
         return s
 
 
@@ -667,6 +671,8 @@ class ConnInterp:
                 b = s.fork()
                 fa = self.refine(n.test, True, a, f, depth)
                 fb = self.refine(n.test, False, b, f, depth)
+                a.conds.append((norm(n.test), True))
+                b.conds.append((norm(n.test), False))
                 # sentinel variable idiom (UGRID): the skip arm of  `dtype != INT_DTYPE or fv != INT_FILL_VALUE`
                 self.apply_sentinel_facts(b)
                 self.apply_sentinel_facts(a)
@@ -745,6 +751,7 @@ class ConnInterp:
                 if isinstance(v, Scal) and v.kind == "unique_inverse":
                     v = Arr(dtype="std", sent=NONE, base=("lit", 0), why=("np.unique inverse",))
                 self.sinks.append((f, node, key, v, dict(st.facts)))
+                st.hit += 1
                 return
             # ---- masked / sliced store into an array
             arr = base
@@ -758,6 +765,7 @@ class ConnInterp:
             if isinstance(owner, DS):
                 key = str_const(tgt.value.slice) or "<" + norm(tgt.value.slice) + ">"
                 self.sinks.append((f, node, key, self.ev(value, st, f, depth), dict(st.facts)))
+                st.hit += 1
             return
         if isinstance(tgt, ast.Name):
             v = self.ev(value, st, f, depth)
@@ -865,7 +873,7 @@ def analyse_reader(program, func: FuncInfo, ds_params, extra_env=None):
     env = {p: DS(p) for p in ds_params}
     env.update(extra_env or {})
     st = State(env)
-    I.block(func.node.body, [st], func, 0)
+    I.exits = I.block(func.node.body, [st], func, 0)     # final states of the entry function (one per path that does not raise)
     return I
 
 
